@@ -5,7 +5,8 @@ import . "vh/vhlib"
 func main() {
 	Main(map[string]CmdFn{
 		"gen": func(a []string) int { return RunGen(gens, a) },
-		"c06": c06,
-		"c16": c16,
+		"c13": c13,
+		"c13hs": c13hs,
+		"c11": c11,
 	})
 }
